@@ -34,9 +34,57 @@ func file(rel string) *ast.File {
 	return f
 }
 
-// numeric value of a (possibly negated) basic literal expression
+// package-level numeric constants/variables with literal initialisers, per directory (so that a literal
+// that was extracted into a named constant still resolves)
+var constTable = map[string]map[string]ast.Expr{}
+
+func loadConsts(rel string) map[string]ast.Expr {
+	dir := filepath.Dir(rel)
+	if t, ok := constTable[dir]; ok {
+		return t
+	}
+	t := map[string]ast.Expr{}
+	constTable[dir] = t
+	matches, _ := filepath.Glob(filepath.Join(repo, dir, "*.go"))
+	for _, m := range matches {
+		if strings.HasSuffix(m, "_test.go") {
+			continue
+		}
+		f, err := parser.ParseFile(token.NewFileSet(), m, nil, 0)
+		if err != nil {
+			continue
+		}
+		for _, d := range f.Decls {
+			g, ok := d.(*ast.GenDecl)
+			if !ok || (g.Tok != token.CONST && g.Tok != token.VAR) {
+				continue
+			}
+			for _, sp := range g.Specs {
+				vs := sp.(*ast.ValueSpec)
+				for i, n := range vs.Names {
+					if i < len(vs.Values) {
+						t[n.Name] = vs.Values[i]
+					}
+				}
+			}
+		}
+	}
+	return t
+}
+
+var currentRel string // file whose constants resolve identifiers in numOf
+
+// numeric value of a (possibly negated) basic literal expression, or of a package-level constant
 func numOf(e ast.Expr) (float64, bool) {
 	switch v := e.(type) {
+	case *ast.Ident:
+		if currentRel != "" {
+			if def, ok := loadConsts(currentRel)[v.Name]; ok {
+				if _, isIdent := def.(*ast.Ident); !isIdent {
+					return numOf(def)
+				}
+			}
+		}
 	case *ast.BasicLit:
 		if v.Kind == token.FLOAT || v.Kind == token.INT {
 			f, err := strconv.ParseFloat(v.Value, 64)
@@ -171,6 +219,53 @@ func comparedLits(node ast.Node) []struct {
 		return true
 	})
 	return res
+}
+
+// comparisons `callee() <op> x` anywhere in a file, by the name of the called function value
+func comparedWithCall(rel, callee string) []struct {
+	Op  string
+	Val float64
+} {
+	var res []struct {
+		Op  string
+		Val float64
+	}
+	ast.Inspect(file(rel), func(n ast.Node) bool {
+		be, ok := n.(*ast.BinaryExpr)
+		if !ok {
+			return true
+		}
+		c, isCall := be.X.(*ast.CallExpr)
+		if !isCall {
+			return true
+		}
+		if id, ok := c.Fun.(*ast.Ident); ok && id.Name == callee {
+			if v, ok := numOf(be.Y); ok {
+				res = append(res, struct {
+					Op  string
+					Val float64
+				}{be.Op.String(), v})
+			}
+		}
+		return true
+	})
+	return res
+}
+
+// all results agree on operator and value
+func uniqueCmp(l []struct {
+	Op  string
+	Val float64
+}, op string) (float64, bool) {
+	if len(l) == 0 {
+		return math.NaN(), false
+	}
+	for _, x := range l {
+		if x.Op != op || x.Val != l[0].Val {
+			return math.NaN(), false
+		}
+	}
+	return l[0].Val, true
 }
 
 // float literals passed as the last argument of calls to fn inside node
@@ -324,8 +419,10 @@ func main() {
 
 	// ---- numeric constants
 	emitNumExpr("roundPrecision", declValue("lib/model/alternative.go", "roundPrecision"), "lib/model/alternative.go: const roundPrecision")
-	ce := lastArgLits(funcDecl("lib/logic/preference-func/choquet/choquet-integral.go", "computeTotalWeight"), "FloatsAreEqual")
-	emitConst("choquetEps", first(ce), len(ce) == 1, "choquet-integral.go: computeTotalWeight FloatsAreEqual tolerance")
+	currentRel = "lib/logic/preference-func/choquet/choquet-integral.go"
+	ce := lastArgLits(file(currentRel), "FloatsAreEqual") // anywhere in the file: the tie test may be extracted
+	emitConst("choquetEps", first(ce), len(ce) >= 1 && allSame(ce), "choquet-integral.go: FloatsAreEqual tolerance of the tie grouping")
+	currentRel = ""
 	emitNumExpr("majorityEps", declValue("lib/logic/limited-rationality/majority/majority.go", "eps"), "majority.go: const eps")
 	emitNumExpr("minAllowedWeight", declValue("lib/logic/biases/anchoring/new-criterion-anchoring-applier.go", "_minAllowedWeight"), "new-criterion-anchoring-applier.go: const _minAllowedWeight")
 	dd := declValue("lib/logic/preference-func/electreIII/distilation.go", "DefaultDistillationFunc")
@@ -335,12 +432,16 @@ func main() {
 	emitNumExpr("defaultConcealmentScaling", compositeField(funcDecl("lib/logic/biases/criteria-concealment/criteria-concealment.go", "parseProps"), "CriteriaConcealmentParams", "NewCriterionScaling"), "criteria-concealment.go: parseProps default NewCriterionScaling")
 	emitNumExpr("defaultBoundingScaling", compositeField(funcDecl("lib/model/criteria-bounding/criteria-bounding.go", "DefaultParams"), "CriteriaBounding", "AllowedValuesRangeScaling"), "criteria-bounding.go: DefaultParams AllowedValuesRangeScaling")
 	emitNumExpr("defaultApplyProbability", compositeField(funcDecl("lib/model/bias.go", "ChooseBiases"), "BiasParams", "ApplyProbability"), "bias.go: ChooseBiases default ApplyProbability")
-	rw := comparedLits(methodDecl("lib/logic/limited-rationality/majority/draw-resolution.go", "RandomWinnerResolver", "Resolve"))
-	emitConst("randomWinnerHalf", firstCmp(rw), len(rw) == 1 && rw[0].Op == "<", "draw-resolution.go: RandomWinnerResolver `generator() < 0.5`")
-	fs := comparedLits(funcDecl("lib/logic/biases/fatigue/fatigue.go", "blurCriteriaValues"))
-	emitConst("fatigueSignHalf", firstCmp(fs), len(fs) == 1 && fs[0].Op == ">=", "fatigue.go: blurCriteriaValues `signGenerator() >= 0.5`")
-	as := comparedLits(funcDecl("lib/logic/limited-rationality/aspect-elimination/aspect-elimination.go", "sortCriteria"))
-	emitConst("aspectTieHalf", firstCmp(as), len(as) == 1 && as[0].Op == "<", "aspect-elimination.go: sortCriteria `generator() < 0.5`")
+	currentRel = "lib/logic/limited-rationality/majority/draw-resolution.go"
+	rwv, rwok := uniqueCmp(comparedWithCall(currentRel, "generator"), "<")
+	emitConst("randomWinnerHalf", rwv, rwok, "draw-resolution.go: RandomWinnerResolver `generator() < 0.5`")
+	currentRel = "lib/logic/biases/fatigue/fatigue.go"
+	fsv, fsok := uniqueCmp(comparedWithCall(currentRel, "signGenerator"), ">=")
+	emitConst("fatigueSignHalf", fsv, fsok, "fatigue.go: `signGenerator() >= 0.5`")
+	currentRel = "lib/logic/limited-rationality/aspect-elimination/aspect-elimination.go"
+	asv, asok := uniqueCmp(comparedWithCall(currentRel, "generator"), "<")
+	emitConst("aspectTieHalf", asv, asok, "aspect-elimination.go: sortCriteria `generator() < 0.5`")
+	currentRel = ""
 
 	// ---- identifier strings
 	out.WriteString("\n")
@@ -464,6 +565,15 @@ func main() {
 			os.Exit(1)
 		}
 	}
+}
+
+func allSame(l []float64) bool {
+	for _, x := range l {
+		if x != l[0] {
+			return false
+		}
+	}
+	return true
 }
 
 func first(l []float64) float64 {
